@@ -174,6 +174,18 @@ func VC14_Via() {
 		}
 	}
 	rt.Observe("out", v.String())
+	// the proxy stamps the first entry (received / rport): every other entry must re-encode unchanged
+	if n >= 2 && v.Size() == n && rt.Bool("stamp-first-entry") {
+		p0, _ := v.GetParam(0)
+		p0.SetReceived("192.0.2.7")
+		parts := strings.Split(v.String(), ",")
+		rt.Assert(len(parts) == n, "Via: stamping the first entry keeps the number of entries")
+		if len(parts) == n {
+			for i := 1; i < n; i++ {
+				rt.Assert(parts[i] == es[i].text, "Via: stamping the first entry leaves the other entries byte-identical")
+			}
+		}
+	}
 	rt.Reach("end")
 }
 
